@@ -361,6 +361,55 @@ def r7(ctx):
     ctx.floor(R, 2)
 
 
+TCP_ALLOWED = {("SynSent", "Established"), ("SynReceived", "Established"), ("Established", "CloseWait"), ("Established", "FinWait1"),
+               ("CloseWait", "LastAck"), ("FinWait1", "FinWait2"), ("FinWait1", "Closing"), ("FinWait2", "Closed"), ("Closing", "Closed"),
+               ("LastAck", "Closed")}
+
+
+def r10(ctx, R="C13-R10"):
+    ctx.rule(R, "the transition relation the code implements on Tcb::state (extracted per path by the typestate dataflow) is TCP's: every "
+                "write that can change the state moves it along one of SynSent->Established, SynReceived->Established, "
+                "Established->CloseWait|FinWait1, CloseWait->LastAck, FinWait1->FinWait2|Closing, FinWait2->Closed, Closing->Closed, "
+                "LastAck->Closed; only abort_with may go to Closed from anywhere; and each of the ten transitions is implemented somewhere. "
+                "Entering Closed early (e.g. FinWait1->Closed on the peer's FIN) takes the socket out of the retransmit and segmentation "
+                "state lists while its own data / FIN are still unacknowledged: silent loss")
+    ts = Typestate(ctx.w, CELLS)
+    seen = set()
+    cnt = {}
+    for b in sorted(ctx.w.bodies.values(), key=lambda b: b.id):
+        if b.crate != "turmoil_net" or "::tests::" in b.id:
+            continue
+        evs, _ = ts.analyze(b)
+        for e in sorted(evs, key=lambda e: (e.bb, e.idx)):
+            root = b
+            while root.parent and root.parent in ctx.w.bodies:
+                root = ctx.w.bodies[root.parent]
+            if root.id.endswith("::abort_with"):
+                continue
+            bad = []
+            for p, n, ident in e.pairs:
+                if ident:
+                    continue
+                for a in p:
+                    for z in n:
+                        if a == z:
+                            continue
+                        if len(p) >= 9:
+                            bad.append(("*", z))
+                        elif (a, z) in TCP_ALLOWED:
+                            seen.add((a, z))
+                        else:
+                            bad.append((a, z))
+            k = f"{root.id}:state-write#{nth(cnt, root.id)}"
+            ctx.inst(R, k, not bad, e.site, "moves along TCP's state machine" if not bad else
+                     f"`{root.id}` can move the connection {sorted(set(bad))[0][0]} -> {sorted(set(bad))[0][1]}, which is not a TCP transition "
+                     f"(all offending: {sorted(set(bad))[:4]}): a connection that still has data or a FIN to get acknowledged is taken out of the states the retransmit sweep and the segmenter serve")
+    missing = sorted(TCP_ALLOWED - seen)
+    ctx.inst(R, "all-transitions-implemented", not missing, "", "all ten transitions are implemented" if not missing else
+             f"no code path implements {missing}: connections reaching the source state never leave it that way")
+    ctx.floor(R, 7)
+
+
 def r9(ctx):
     R = "C13-R9"
     ctx.rule(R, "(a) a dropped listener sweeps only its own half-open children: the sweep in tcp::on_close compares the child's port *and* "
@@ -407,6 +456,7 @@ def r9(ctx):
 
 
 def run(ctx):
+    r10(ctx)
     r9(ctx)
     scan_rule(ctx, "C13")
     r7(ctx)
